@@ -608,6 +608,9 @@ def _run_property(prop, tier, seed, replay, t0, udir):
             continue
         if an["resource"]:
             undecided.append("unit %s: solver resource limit on %s" % (u, [r["item"] for r in an["resource"]]))
+        audit_bad = [(it["selector"], it["audit_missing"]) for it in rep["items"] if it.get("audit_missing") and prop in it["props"]]
+        if audit_bad:
+            undecided.append("unit %s: extraction audit — tokens of the source body are missing from the verified text (the extractor may have dropped code): %s" % (u, audit_bad[:3]))
         if an["canaries_failed"] < an["canaries_expected"]:
             undecided.append("unit %s: vacuity guard — only %d of %d canaries (ensures false) failed as they must" % (u, an["canaries_failed"], an["canaries_expected"]))
         if an["other"]:
@@ -723,7 +726,12 @@ def _run_property(prop, tier, seed, replay, t0, udir):
         "back_end": VERUS_VERSION,
         "units": units,
         "extraction": [{"function": it["selector"], "file": it["file"], "src_lines": it["src_lines"], "src_sha": source_hash(it),
-                        "rules_applied": it["rules"], "dropped": it["dropped"]} for _, it in my_items],
+                        "rules_applied": it["rules"], "dropped": it["dropped"], "token_audit_missing": it.get("audit_missing")} for _, it in my_items],
+        # lightweight translation validation (DESIGN §3.2): operators / integer literals / call names of each source body that are
+        # absent from the verified text after the closed list of rule-consumed names is discounted
+        "extraction_token_audit": {"functions_audited": sum(1 for u in units for it in gens[u][1]["items"] if it.get("audit_missing") is not None),
+                                   "with_differences": [{"unit": u, "function": it["selector"], "missing": it["audit_missing"]}
+                                                        for u in units for it in gens[u][1]["items"] if it.get("audit_missing")]},
         "not_covered": cfg.get("not_covered", []),
         "samples": samples,
         "explanation": cfg.get("explanation", ""),
